@@ -61,7 +61,7 @@ def validate(c, pid, tr, docs_on=False):
         while s > 0 and not (evs[s].get("ev") == "Expr" and evs[s].get("i") == 0): s -= 1
         e = at
         while e < len(evs) and not (evs[e].get("ev") == "Expr" and evs[e].get("i") == 0): e += 1
-        seg = [x for x in evs[s:e] if x.get("ev") in ("Expr", "Reg", "Matrix")] + ([bad] if bad.get("ev") == "Value" else [])
+        seg = [x for x in evs[s:e] if x.get("ev") in ("Expr", "Reg", "Matrix")] + ([bad] if bad.get("ev") in ("Value", "Perm") else [])
         rp = c.replay_file("texpr_segment_%s.ndjson" % pid, "\n".join(json.dumps(x) for x in seg) + "\n")
         what = ""
         if bad.get("ev") == "Value":
